@@ -416,8 +416,7 @@ Section Stream.
     constructor; simpl; rewrite ?length_upd; try assumption.
     all: try (rd; exact Hns).
     - rd. exact Hsp.
-    - rd. rewrite Hown. simpl.
-      destruct q; simpl in Hq; subst; rewrite Nat.eqb_refl; simpl; apply Nat.ltb_lt; lia.
+    - rd. rewrite Hown. reflexivity.
     - intros v todo' Hv. rd. rewrite fw_app. destruct (Nat.eq_dec w v) as [<-|Hne].
       + rewrite (nth_upd_same _ _ _ _ Hn) in Hv. injection Hv as <-.
         destruct (Hwk w _ Hn) as (s & Hs & E). exists s. split; [exact Hs|].
@@ -736,6 +735,79 @@ Section Stream.
     - exact H1.
     - pose proof sinit_measure. lia.
   Qed.
+  (* ---- who was alive when run() ended had not been joined ---- *)
+  Definition SLInv (c : sconf) : Prop :=
+    s_main c = SMDone -> forall w b, nth_error (s_live c) w = Some b -> In w (joins (s_log c)) -> b = false.
+
+  Lemma safter_spawn_live c k : s_main (safter_spawn i c k) = SMDone ->
+    s_live (safter_spawn i c k) = map (fun w => negb (sw_done w)) (s_workers (safter_spawn i c k)).
+  Proof.
+    unfold safter_spawn. destruct (option_eqb Nat.eqb (si_mt_raise i) (Some k)); [reflexivity|].
+    destruct (k <? length (si_suites i)); [discriminate|]. destruct (s_unreaped c); [reflexivity | discriminate].
+  Qed.
+
+  Lemma sstep_live c t c' : sstep i c t = Some c' ->
+    (s_main c = SMDone /\ s_main c' = SMDone /\ s_live c' = s_live c /\ joins (s_log c') = joins (s_log c))
+    \/ (s_main c <> SMDone /\ (s_main c' = SMDone -> s_live c' = map (fun w => negb (sw_done w)) (s_workers c'))).
+  Proof.
+    destruct t as [|w]; simpl.
+    - unfold sstep_main. destruct (s_main c) eqn:Em; try discriminate; intro H; right; (split; [discriminate|]).
+      + destruct (nth_error (si_suites i) k); [|discriminate]. injection H as <-. apply safter_spawn_live.
+      + destruct (option_eqb Nat.eqb (si_get_intr i) (Some (s_gets c))).
+        * injection H as <-. reflexivity.
+        * destruct (s_queue c) as [|q0 rest]; [discriminate|]. injection H as <-. destruct q0; discriminate.
+      + destruct q; try discriminate. injection H as <-.
+        destruct (memb (s_mcalls c) (si_main_faults i)); [reflexivity | discriminate].
+      + destruct (nth_error (s_workers c) w); [|discriminate]. destruct (sw_done l); [|discriminate].
+        injection H as <-. simpl. destruct (s_unreaped c); [reflexivity | discriminate].
+    - unfold sstep_worker. destruct (nth_error (s_workers c) w) as [[|q todo]|]; try discriminate.
+      intro H; injection H as <-. simpl. destruct (s_main c) eqn:Em.
+      all: try (right; split; [discriminate | discriminate]).
+      left. repeat split; try reflexivity. unfold slog. rewrite joins_snoc. apply app_nil_r.
+  Qed.
+
+  Lemma nth_error_map_inv {A B} (f : A -> B) l : forall w b, nth_error (map f l) w = Some b ->
+    exists a, nth_error l w = Some a /\ b = f a.
+  Proof.
+    induction l as [|x l IH]; intros [|w] b H; simpl in *; try discriminate.
+    - injection H as <-. eauto.
+    - apply IH. exact H.
+  Qed.
+
+  Lemma slinv_step c t c' : SInv c -> SLInv c -> sstep i c t = Some c' -> SLInv c'.
+  Proof.
+    intros HI HL Hs. pose proof (sstep_inv c t c' HI Hs) as HI'.
+    destruct (sstep_live c t c' Hs) as [(Hd & Hd' & El & Ej)|(Hnd & Hlive)].
+    - intros _ w b Hn Hin. rewrite El in Hn. rewrite Ej in Hin. apply (HL Hd w b Hn Hin).
+    - intros Hd w b Hn Hin. rewrite (Hlive Hd) in Hn.
+      apply nth_error_map_inv in Hn as (todo & Hn & ->).
+      pose proof (sv_joins c' HI') as Hjo. unfold pend_join in Hjo. rewrite Hd, app_nil_r in Hjo.
+      assert (Hm : memb w (stopsq (gotten (s_log c'))) = true).
+      { rewrite <- Hjo. unfold memb. apply existsb_exists. exists w. split; [exact Hin | apply Nat.eqb_refl]. }
+      apply stopsq_in in Hm. rewrite (popped_done c' w todo HI' Hm Hn). reflexivity.
+  Qed.
+
+  Lemma sinit_linv : SLInv (sinit i).
+  Proof.
+    unfold SLInv, sinit, safter_spawn. destruct (option_eqb Nat.eqb (si_mt_raise i) (Some 0)); simpl.
+    - intros _ w b _ H. contradiction.
+    - destruct (0 <? length (si_suites i)); simpl; intros _ w b _ H; contradiction.
+  Qed.
+
+  Definition SInv2 (c : sconf) : Prop := SInv c /\ SLInv c.
+
+  Lemma srun_inv2 : SInv2 (srun i) /\ sall_done (srun i) = true.
+  Proof.
+    unfold srun.
+    assert (St : forall c t c', SInv2 c -> sstep i c t = Some c' -> SInv2 c').
+    { intros c t c' [H1 H2] Hs. split; [eapply sstep_inv; eauto | eapply slinv_step; eauto]. }
+    destruct (gfold_P (sstep i) snthr SInv2 smeasure St (fun c t c' _ H => sstep_measure c t c' H)
+                (si_sched i) (sinit i) (conj sinit_inv sinit_linv)) as [H1 H2].
+    apply (gdrain_done (sstep i) snthr SInv2 smeasure sall_done St (fun c t c' _ H => sstep_measure c t c' H)
+             (fun c H => slive c (proj1 H))).
+    - exact H1.
+    - pose proof sinit_measure. lia.
+  Qed.
 End Stream.
 
 (* ---- the stream model meets the statement ---- *)
@@ -786,7 +858,7 @@ Proof. unfold worker_puts. rewrite ev_of_app. simpl. apply app_nil_r. Qed.
 
 Theorem stream_meets_spec : forall i, spec_okb (IStream i) (model (IStream i)) = true.
 Proof.
-  intro i. destruct (srun_inv i) as [HI Hd]. unfold spec_okb, model. set (c := srun i) in *.
+  intro i. destruct (srun_inv2 i) as [[HI HL] Hd]. unfold spec_okb, model. set (c := srun i) in *.
   pose proof HI as [Hle Hsp Hown Hwk Hfifo Hqo Hdl Hjo Hns Hps Hph Hrun].
   unfold sall_done in Hd. apply andb_true_iff in Hd as [Hmd Hwd].
   unfold smain_done in Hmd. destruct (s_main c) eqn:Em; try discriminate.
@@ -804,7 +876,14 @@ Proof.
     replace (Bool.eqb (s_raised c) (s_raised c)) with true by (destruct (s_raised c); reflexivity).
     rewrite Hns, Hst.
     destruct (s_raised c) eqn:Er; simpl.
-    + fold (unreaped_of K (joins (s_log c))). rewrite unreaped_lt, forallb_memb_self. reflexivity.
+    + fold (unreaped_of K (joins (s_log c))). rewrite unreaped_lt. simpl.
+      apply forallb_idx_spec. intros w b Hn. simpl. destruct b; [|reflexivity]. simpl.
+      assert (HwK' : w < K) by (rewrite <- Hlive; apply nth_error_Some; congruence).
+      apply existsb_exists. exists w. split; [|apply Nat.eqb_refl].
+      unfold unreaped_of. apply filter_In. split; [apply in_seq; lia|].
+      destruct (memb w (joins (s_log c))) eqn:Em'; [|reflexivity]. exfalso.
+      unfold memb in Em'. apply existsb_exists in Em' as (x & Hx & E). apply Nat.eqb_eq in E. subst x.
+      specialize (HL Em w true Hn Hx). discriminate.
     + destruct (Hnr eq_refl) as [Hl _]. rewrite Hl. reflexivity.
   - (* delivery, per worker *)
     cbn [o_trace o_raised]. fold n. fold K.
